@@ -49,9 +49,11 @@ def const(v):
         if v != v or v in (float("inf"), float("-inf")):
             raise NonFinite(v)
         f = Fraction(v).limit_denominator(10 ** 7)
-        # Real mode: a double stands for the short rational it was written as (0.1 -> 1/10) when that
-        # rational round-trips to the same double (injective, so distinct doubles stay distinct)
-        v = f if float(f) == v else Fraction(v)
+        # Real mode: a double stands for the short rational it was written as or rounds to
+        # (0.1 -> 1/10, 0.3-0.1 = 0.19999999999999998 -> 1/5): value-level rounding of binary64
+        # is outside every Real-mode claim.  Doubles further than 1e-12 (relative) from any short
+        # rational keep their exact binary value.
+        v = f if abs(float(f) - v) <= 1e-12 * max(1.0, abs(v)) else Fraction(v)
     elif not isinstance(v, Fraction):
         v = Fraction(v)
     return _mk("const", (v,), "R")
